@@ -62,4 +62,24 @@ inductive ClkAction where
   | adjust (offset duration : Int64) (frequency : F64.F64)
 deriving DecidableEq, Repr
 
+/-- A pointer `*T` to a heap object whose contents are never written after its allocation
+    (eighth generation, harness/extract/leaf8.go; the translator checks that no field of `T` is
+    assigned anywhere in the package): the object's identity — the number of the allocation that
+    made it — and its contents. `nil` is `none` of `Option (Ref T)`. Two pointers are the same
+    pointer iff they have the same identity; identities are handed out by `World.alloc`
+    (Model/GoPrelude3.lean), each once. -/
+structure Ref (α : Type) where
+  id : Nat
+  val : α
+deriving Repr
+
+/-- `*p` / `p.f`: dereferencing `nil` panics -/
+def Ref.deref? {α : Type} (p : Option (Ref α)) : Option α := p.map (·.val)
+
+/-- identity of the object pointed to (`none` for `nil`) -/
+def Ref.id? {α : Type} (p : Option (Ref α)) : Option Nat := p.map (·.id)
+
+/-- `p == q` on pointers: both `nil`, or the same object -/
+def Ref.same {α : Type} (p q : Option (Ref α)) : Bool := Ref.id? p == Ref.id? q
+
 end ScionTime.Go
